@@ -2,7 +2,8 @@
 which of several equivalent spellings the source uses.  All are classical compiler transformations over the syntax tree --
 nothing is evaluated:
 
-  unroll_static_loops   `for T in <literal tuple/list>` (or a local bound to one just before) -> the body once per element, the
+  unroll_static_loops   `for T in <literal tuple/list>` (or a local, a module-level or a class-level name bound to one; `.items()` /
+                        `.keys()` / `.values()` of a literal dict alike) -> the body once per element, the
                         loop targets replaced by the element's expressions;  a table scan `for T in <literal>: if C: S; break`
                         [`else: E`] -> the if/elif chain over the rows [with `else: E`]
   specialise_dispatch   `if c1: def f.. elif c2: def f.. else: raise` followed by statements using f -> the statements moved into each
@@ -181,6 +182,42 @@ def _zipped_literal(node):
     return ast.fix_missing_locations(ast.copy_location(ast.Tuple(elts=rows, ctx=ast.Load()), node))
 
 
+class _DictTable(ast.Tuple):
+    """a literal dict kept as the tuple of its (key, value) pairs (so that it can sit where literal sequences sit)"""
+    _fields = ast.Tuple._fields
+
+
+def _literal_dict(node):
+    """`{k1: v1, ..}` with distinct constant keys and no `**` -> _DictTable of the pairs"""
+    if isinstance(node, ast.Dict) and 1 <= len(node.keys) <= 24 and all(isinstance(k, ast.Constant) for k in node.keys) \
+            and len({repr(k.value) for k in node.keys}) == len(node.keys):
+        return _DictTable(elts=[ast.Tuple(elts=[k, v], ctx=ast.Load()) for k, v in zip(node.keys, node.values)], ctx=ast.Load())
+    return None
+
+
+def _literal_table(node):
+    return _literal_seq(node) or _literal_dict(node)
+
+
+def _iterated(it, lits, attrs):
+    """the literal sequence a loop `for T in <it>` visits when <it> is a literal / a local, module-level or class-level table,
+    or `.items()` / `.keys()` / `.values()` of a literal dict of that kind; -> (sequence, name of the local table | None) or None"""
+    view, base = None, it
+    if isinstance(it, ast.Call) and isinstance(it.func, ast.Attribute) and it.func.attr in ("items", "keys", "values") and not it.args and not it.keywords:
+        view, base = it.func.attr, it.func.value
+    tab = _literal_table(base) or (lits.get(base.id) if isinstance(base, ast.Name) else None) or _attr_table(base, attrs)
+    if tab is None:
+        return None
+    local = base.id if isinstance(base, ast.Name) else None
+    if isinstance(tab, _DictTable):
+        if view in (None, "keys"):
+            return ast.Tuple(elts=[p_.elts[0] for p_ in tab.elts], ctx=ast.Load()), local
+        if view == "values":
+            return ast.Tuple(elts=[p_.elts[1] for p_ in tab.elts], ctx=ast.Load()), local
+        return ast.Tuple(elts=list(tab.elts), ctx=ast.Load()), local
+    return (tab, local) if view is None else None
+
+
 _CONST_CTORS = {"re.compile"}
 
 
@@ -200,15 +237,42 @@ def _pure(e, lambdas: bool = False) -> bool:
     return True
 
 
+def _target_names(tg):
+    """names of a (possibly nested) tuple target, or None when it holds anything but names (starred, subscripts, attributes)"""
+    if isinstance(tg, ast.Name):
+        return [tg.id]
+    if isinstance(tg, (ast.Tuple, ast.List)):
+        out = []
+        for e in tg.elts:
+            sub = _target_names(e)
+            if sub is None:
+                return None
+            out += sub
+        return out
+    return None
+
+
+def _destructure(tg, e):
+    """{name: expression} of binding the literal element `e` to the target `tg` (nested tuples matched structurally), or None"""
+    if isinstance(tg, ast.Name):
+        return {tg.id: e}
+    if not isinstance(e, (ast.Tuple, ast.List)) or len(e.elts) != len(tg.elts) or any(isinstance(x, ast.Starred) for x in e.elts):
+        return None
+    m = {}
+    for t, x in zip(tg.elts, e.elts):
+        sub = _destructure(t, x)
+        if sub is None:
+            return None
+        m.update(sub)
+    return m
+
+
 def _unroll_one(loop: ast.For, seq):
     if loop.orelse or _top_level_jumps(loop.body):
         return None
     tg = loop.target
-    if isinstance(tg, ast.Name):
-        names = [tg.id]
-    elif isinstance(tg, (ast.Tuple, ast.List)) and all(isinstance(e, ast.Name) for e in tg.elts):
-        names = [e.id for e in tg.elts]
-    else:
+    names = _target_names(tg)
+    if names is None:
         return None
     # the loop targets must not be RE-BOUND in the body; mutating the object a target names in place (`c.clear()`, `c[k] = v`)
     # is the same operation on the element expression that replaces the target
@@ -216,12 +280,9 @@ def _unroll_one(loop: ast.For, seq):
         return None
     out = []
     for e in seq.elts:
-        if isinstance(tg, ast.Name):
-            m = {tg.id: e}
-        else:
-            if not isinstance(e, (ast.Tuple, ast.List)) or len(e.elts) != len(names) or any(isinstance(x, ast.Starred) for x in e.elts):
-                return None
-            m = dict(zip(names, e.elts))
+        m = _destructure(tg, e)
+        if m is None:
+            return None
         if not all(_pure(v, lambdas=True) for v in m.values()):
             return None
         for st in loop.body:
@@ -241,23 +302,17 @@ def _scan_chain(loop: ast.For, seq):
     if _top_level_jumps(rest):
         return None
     tg = loop.target
-    if isinstance(tg, ast.Name):
-        names = [tg.id]
-    elif isinstance(tg, (ast.Tuple, ast.List)) and all(isinstance(e, ast.Name) for e in tg.elts):
-        names = [e.id for e in tg.elts]
-    else:
+    names = _target_names(tg)
+    if names is None:
         return None
     if set(names) & _stored(loop.body):
         return None
     # the loop variables must not be read after the loop (they would keep the matching row's values)
     chain = list(loop.orelse)
     for e in reversed(seq.elts):
-        if isinstance(tg, ast.Name):
-            m = {tg.id: e}
-        else:
-            if not isinstance(e, (ast.Tuple, ast.List)) or len(e.elts) != len(names) or any(isinstance(x, ast.Starred) for x in e.elts):
-                return None
-            m = dict(zip(names, e.elts))
+        m = _destructure(tg, e)
+        if m is None:
+            return None
         if not all(_pure(v) for v in m.values()):
             return None
         test = _Subst(dict(m)).visit(copy.deepcopy(inner.test))
@@ -268,26 +323,32 @@ def _scan_chain(loop: ast.For, seq):
     return chain
 
 
-def _unroll_block(stmts, lits, once=frozenset()):
+def _attr_table(node, attrs):
+    """the class-level table read by `self.T` / `cls.T` / `<Class>.T` (attrs: {(receiver name, T): literal sequence}), or None"""
+    if attrs and isinstance(node, ast.Attribute) and isinstance(node.value, ast.Name):
+        return attrs.get((node.value.id, node.attr))
+    return None
+
+
+def _unroll_block(stmts, lits, once=frozenset(), attrs=None):
     """lits: name -> literal sequence node still valid at this point;  once: the locals read exactly once in the function (only
-    those may stand for a one-shot zip / enumerate iterator)"""
+    those may stand for a one-shot zip / enumerate iterator);  attrs: (receiver, attribute) -> class-level literal table"""
     out = []
     lits = dict(lits)
     for st in stmts:
         if isinstance(st, ast.For):
-            seq = _literal_seq(st.iter) or (lits.get(st.iter.id) if isinstance(st.iter, ast.Name) else
-                                            lits.get(f"{st.iter.value.id}.{st.iter.attr}") if isinstance(st.iter, ast.Attribute) and isinstance(st.iter.value, ast.Name) else None)
+            seq, local = _iterated(st.iter, lits, attrs) or (None, None)
             if seq is not None:
                 body_st = _stored(st.body)
                 free = set().union(*[_loaded(e) for e in seq.elts]) if seq.elts else set()
-                if not (free & body_st) and not (isinstance(st.iter, ast.Name) and st.iter.id in body_st):
+                if not (free & body_st) and not (local is not None and local in body_st):
                     after = stmts[stmts.index(st) + 1:]
                     tnames = {n.id for n in ast.walk(st.target) if isinstance(n, ast.Name)}
                     un = _scan_chain(st, seq) if not (tnames & set().union(*[_loaded(a) for a in after], set())) else None
                     if un is None:
                         un = _unroll_one(st, seq)
                     if un is not None:
-                        un = _unroll_block(un, lits, once)
+                        un = _unroll_block(un, lits, once, attrs)
                         for u in un:
                             ast.fix_missing_locations(u)
                         out.extend(un)
@@ -298,18 +359,21 @@ def _unroll_block(stmts, lits, once=frozenset()):
         for fld in ("body", "orelse", "finalbody"):
             b = getattr(st, fld, None)
             if isinstance(b, list) and b and isinstance(b[0], ast.stmt) and not isinstance(st, (ast.FunctionDef, ast.ClassDef, ast.AsyncFunctionDef)):
-                setattr(st, fld, _unroll_block(b, surviving, once))
+                setattr(st, fld, _unroll_block(b, surviving, once, attrs))
         if isinstance(st, ast.Try):
             for h in st.handlers:
-                h.body = _unroll_block(h.body, surviving, once)
+                h.body = _unroll_block(h.body, surviving, once, attrs)
         # update the table
         for k in list(lits):
             if k in inner_st or (set().union(*[_loaded(e) for e in lits[k].elts]) & inner_st):
                 del lits[k]
         if isinstance(st, ast.Assign) and len(st.targets) == 1 and isinstance(st.targets[0], ast.Name):
-            seq = _literal_seq(st.value)
+            # a local bound to a literal table, or to a class-level / local table under another name (`rows = self._ROWS`); a
+            # zip / enumerate of literals is a one-shot iterator: the local stands for its rows only where it is read once
+            seq = _literal_table(st.value) or _attr_table(st.value, attrs) or (lits.get(st.value.id) if isinstance(st.value, ast.Name) else None)
+            oneshot = isinstance(st.value, ast.Call)
             if seq is not None and all(_pure(e, lambdas=True) for e in seq.elts) and st.targets[0].id not in set().union(*[_loaded(e) for e in seq.elts]) \
-                    and (isinstance(st.value, (ast.Tuple, ast.List)) or st.targets[0].id in once):
+                    and (not oneshot or st.targets[0].id in once):
                 lits[st.targets[0].id] = seq
         out.append(st)
     return out
@@ -323,8 +387,8 @@ def module_tables(mod: ast.Module) -> dict:
         for n in ast.walk(st) if not isinstance(st, (ast.FunctionDef, ast.AsyncFunctionDef, ast.ClassDef)) else []:
             if isinstance(n, ast.Name) and isinstance(n.ctx, (ast.Store, ast.Del)):
                 count[n.id] = count.get(n.id, 0) + 1
-        if isinstance(st, ast.Assign) and len(st.targets) == 1 and isinstance(st.targets[0], ast.Name) and isinstance(st.value, (ast.Tuple, ast.List)):
-            seq = _literal_seq(st.value)
+        if isinstance(st, ast.Assign) and len(st.targets) == 1 and isinstance(st.targets[0], ast.Name) and isinstance(st.value, (ast.Tuple, ast.List, ast.Dict)):
+            seq = _literal_table(st.value)
             if seq is not None and all(_pure(e) for e in seq.elts):
                 cand[st.targets[0].id] = seq
     if not cand:
@@ -345,52 +409,80 @@ def module_tables(mod: ast.Module) -> dict:
             and not (set().union(*[_loaded(e) for e in v.elts]) & set(cand))}
 
 
-def class_tables(cls: ast.ClassDef, mod: ast.Module) -> dict:
-    """'self.NAME' / 'cls.NAME' / '<Class>.NAME' -> literal tuple/list for the class-level constants of `cls`: bound exactly once
-    in the class body, elements pure and not naming other class-level names, and NAME assigned / deleted / mutated as an attribute
-    of nothing anywhere in the module (`x.NAME = ..`, `x.NAME[i] = ..`, `x.NAME.append(..)`, setattr) nor bound in the body of
-    another class of the module (an override).  A loop `for a, b in self.NAME` in a method is then as static as one over a local
-    literal (unroll_static_loops)."""
+def class_tables(cls: ast.ClassDef, mod: ast.Module | None = None) -> dict:
+    """attribute name -> literal tuple/list bound exactly once in the class body (pure elements that mention no name bound in the
+    class body), which nothing in the module re-binds or mutates through an attribute access (`x.T = ..`, `x.T[i] = ..`,
+    `x.T.append(..)`, `del x.T`, setattr/delattr with that name or a computed name on anything): a loop `for a, b in self.T`
+    inside a method of the class is as static as one over a local literal (unroll_static_loops).  A subclass that overrides T in
+    ANOTHER module is not seen -- the methods are then analysed for the class that defines them."""
     cand, count = {}, {}
+    body_names = set()
     for st in cls.body:
-        for n in ast.walk(st) if not isinstance(st, (ast.FunctionDef, ast.AsyncFunctionDef, ast.ClassDef)) else []:
+        if isinstance(st, (ast.FunctionDef, ast.AsyncFunctionDef, ast.ClassDef)):
+            body_names.add(st.name)
+            continue
+        for n in ast.walk(st):
             if isinstance(n, ast.Name) and isinstance(n.ctx, (ast.Store, ast.Del)):
                 count[n.id] = count.get(n.id, 0) + 1
-        if isinstance(st, (ast.FunctionDef, ast.AsyncFunctionDef, ast.ClassDef)):
-            count[st.name] = count.get(st.name, 0) + 1
+                body_names.add(n.id)
         tgt = st.targets[0] if isinstance(st, ast.Assign) and len(st.targets) == 1 else st.target if isinstance(st, ast.AnnAssign) and st.value is not None else None
-        if isinstance(tgt, ast.Name):
-            seq = _literal_seq(st.value)
+        if isinstance(tgt, ast.Name) and isinstance(st.value, (ast.Tuple, ast.List, ast.Dict)):
+            seq = _literal_table(st.value)
             if seq is not None and all(_pure(e) for e in seq.elts):
                 cand[tgt.id] = seq
-    cand = {k: v for k, v in cand.items() if count.get(k, 0) == 1 and not (set().union(*[_loaded(e) for e in v.elts]) & set(count))}
+    cand = {k: v for k, v in cand.items() if count.get(k, 0) == 1 and not (set().union(*[_loaded(e) for e in v.elts]) & body_names)}
     if not cand:
         return {}
-    for n in ast.walk(mod):
-        if isinstance(n, ast.ClassDef) and n is not cls:
+    bad, via = set(), set()
+    for n in ast.walk(mod if mod is not None else cls):
+        if isinstance(n, ast.Attribute) and isinstance(n.ctx, (ast.Store, ast.Del)):
+            bad.add(n.attr)
+        elif isinstance(n, ast.Call) and isinstance(n.func, ast.Attribute) and isinstance(n.func.value, ast.Attribute) and n.func.attr in MUTATORS:
+            bad.add(n.func.value.attr)
+        elif isinstance(n, ast.Subscript) and isinstance(n.ctx, (ast.Store, ast.Del)) and isinstance(n.value, ast.Attribute):
+            bad.add(n.value.attr)
+        elif isinstance(n, ast.Call) and isinstance(n.func, ast.Name) and n.func.id in ("setattr", "delattr") and len(n.args) >= 2:
+            names = _const_choices(n.args[1], cls, mod)
+            if names is None:
+                return {}                 # an attribute name that is computed: anything may be re-bound
+            bad |= names[0]
+            via |= names[1]
+        elif isinstance(n, ast.ClassDef) and n is not cls:
+            # a subclass in the same module that re-defines the attribute: `self.T` depends on the instance's class
             for st in n.body:
                 for t in (st.targets if isinstance(st, ast.Assign) else [st.target] if isinstance(st, (ast.AnnAssign, ast.AugAssign)) else []):
                     if isinstance(t, ast.Name):
-                        cand.pop(t.id, None)
-        elif isinstance(n, ast.Attribute) and isinstance(n.ctx, (ast.Store, ast.Del)):
-            cand.pop(n.attr, None)
-        elif isinstance(n, ast.Call) and isinstance(n.func, ast.Attribute) and isinstance(n.func.value, ast.Attribute) and n.func.attr in MUTATORS:
-            cand.pop(n.func.value.attr, None)
-        elif isinstance(n, (ast.Assign, ast.AugAssign, ast.Delete)):
-            for t in (n.targets if isinstance(n, (ast.Assign, ast.Delete)) else [n.target]):
-                while isinstance(t, ast.Subscript):
-                    t = t.value
-                    if isinstance(t, ast.Attribute):
-                        cand.pop(t.attr, None)
-        elif isinstance(n, ast.Call) and isinstance(n.func, ast.Name) and n.func.id in ("setattr", "delattr") and len(n.args) >= 2:
-            if isinstance(n.args[1], ast.Constant):
-                cand.pop(n.args[1].value, None)
-            else:
-                return {}
-    return {f"{recv}.{k}": v for k, v in cand.items() for recv in ("self", "cls", cls.name)}
+                        bad.add(t.id)
+    if via & bad:
+        return {}                         # the table an attribute name is looked up in is itself re-bound / mutated
+    return {k: v for k, v in cand.items() if k not in bad}
 
 
-def unroll_static_loops(func, tables: dict | None = None):
+def _const_choices(node, cls: ast.ClassDef, mod):
+    """the finite set of strings an attribute-name expression can evaluate to: a literal, or a lookup `T[k]` / `T.get(k)` in a
+    class-level dict display `T` (read as self.T / cls.T / <Class>.T) whose values are all string literals.
+    -> (names, {T}) or None when the expression is anything else"""
+    if isinstance(node, ast.Constant):
+        return ({node.value}, set()) if isinstance(node.value, str) else None
+    tab = None
+    if isinstance(node, ast.Subscript):
+        tab = node.value
+    elif isinstance(node, ast.Call) and isinstance(node.func, ast.Attribute) and node.func.attr == "get" and len(node.args) == 1 and not node.keywords:
+        tab = node.func.value
+    if tab is None:
+        return None
+    name = tab.attr if isinstance(tab, ast.Attribute) and isinstance(tab.value, ast.Name) else None
+    if name is None:
+        return None
+    defs = [st.value for st in cls.body if isinstance(st, ast.Assign) and any(isinstance(t, ast.Name) and t.id == name for t in st.targets)]
+    if len(defs) != 1 or not isinstance(defs[0], ast.Dict) or not defs[0].values \
+            or not all(isinstance(v, ast.Constant) and isinstance(v.value, str) for v in defs[0].values):
+        return None
+    return {v.value for v in defs[0].values}, {name}
+
+
+def unroll_static_loops(func, tables: dict | None = None, ctables: dict | None = None, cname: str | None = None):
+    """ctables: class-level literal tables (class_tables) of the class `cname` whose method `func` is"""
     lits = {}
     if tables:
         # a module-level table is visible unless the function binds the name itself (parameter, local, nested def); a class-level
@@ -399,14 +491,28 @@ def unroll_static_loops(func, tables: dict | None = None):
         params = [p.arg for p in a.posonlyargs + a.args + a.kwonlyargs]
         own = set(params) | ({a.vararg.arg} if a.vararg else set()) | ({a.kwarg.arg} if a.kwarg else set()) \
             | _stored(func.body)
-        hidden = (own - set(params[:1])) | _rebound(func.body)
-        lits = {k: v for k, v in tables.items() if (k.split(".")[0] not in hidden if "." in k else k not in own)
-                and not (set().union(*[_loaded(e) for e in v.elts]) & own)}
+        lits = {k: v for k, v in tables.items() if k not in own and not (set().union(*[_loaded(e) for e in v.elts]) & own)}
+    attrs = {}
+    if ctables:
+        a = func.args
+        params = [p.arg for p in a.posonlyargs + a.args]
+        decs = {ast.unparse(d) for d in func.decorator_list}
+        bound = {p.arg for p in a.posonlyargs + a.args + a.kwonlyargs} | ({a.vararg.arg} if a.vararg else set()) | ({a.kwarg.arg} if a.kwarg else set()) \
+            | _stored(func.body)
+        recvs = set()
+        if params and "staticmethod" not in decs and params[0] not in _stored(func.body):
+            recvs.add(params[0])            # self / cls
+        if cname and cname not in bound:
+            recvs.add(cname)
+        for k, v in ctables.items():
+            if not (set().union(*[_loaded(e) for e in v.elts]) & bound):
+                for r in recvs:
+                    attrs[(r, k)] = v
     reads = {}
     for n in ast.walk(func):
         if isinstance(n, ast.Name) and isinstance(n.ctx, ast.Load):
             reads[n.id] = reads.get(n.id, 0) + 1
-    func.body = _unroll_block(func.body, lits, frozenset(k for k, c in reads.items() if c == 1))
+    func.body = _unroll_block(func.body, lits, frozenset(k for k, c in reads.items() if c == 1), attrs)
     return func
 
 
@@ -1124,7 +1230,7 @@ def _drop_dead_tables(func):
         out = []
         for st in stmts:
             if isinstance(st, ast.Assign) and len(st.targets) == 1 and isinstance(st.targets[0], ast.Name) and st.targets[0].id not in read:
-                seq = _literal_seq(st.value)
+                seq = _literal_table(st.value)
                 if seq is not None and all(_pure(e, lambdas=True) for e in seq.elts):
                     continue
             if not isinstance(st, (ast.FunctionDef, ast.ClassDef, ast.AsyncFunctionDef)):
@@ -2013,15 +2119,16 @@ def coalesce_copies(func):
     return func
 
 
-def normalize_function(func, tables: dict | None = None):
-    """the local normalisations (no knowledge of other functions needed); `tables`: module-level literal tables (module_tables)"""
+def normalize_function(func, tables: dict | None = None, ctables: dict | None = None, cname: str | None = None):
+    """the local normalisations (no knowledge of other functions needed); `tables`: module-level literal tables (module_tables);
+    `ctables`: class-level literal tables (class_tables) of the class `cname` the function is a method of"""
     try:
         inline_method_aliases(func)
         specialise_dispatch(func)
         inline_local_defs(func)
         index_loops_to_enumerate(func)
         before = len(list(ast.walk(func)))
-        unroll_static_loops(func, tables)
+        unroll_static_loops(func, tables, ctables, cname)
         const_getattr(func)          # after unrolling: the name may come from a row of the unrolled table
         if len(list(ast.walk(func))) != before:
             # unrolling a table of closures / helper references turns them into direct calls: a second round inlines those
